@@ -108,6 +108,17 @@ if spec.get("chatty"):                         # lines that carry nothing, and a
     out({"jsonrpc": "2.0", "id": "nobody", "result": {"echo": "unsolicited"}})
     out({"jsonrpc": "2.0", "id": 0, "error": {"code": -32000, "message": "unsolicited"}})
 out({"jsonrpc": "2.0", "method": "notifications/ready"})
+pre = spec.get("preamble")                     # what it writes right after that, before behaving as its kind says
+if pre:
+    time.sleep(0.3)                            # so that the readiness line is delivered on its own
+if pre == "bad_utf8":
+    raw(b'{"jsonrpc": "2.0", "method": "notifications/\xff\xfe\x80 latin-1 caf\xe9"}\n')
+elif pre == "binary":
+    raw(bytes(range(256)) * 64 + b"\n")
+elif pre == "long_line":
+    raw(b'{"jsonrpc": "2.0", "method": "notifications/big", "params": {"blob": "' + b"x" * 1_500_000 + b'"}}\n')
+elif pre == "truncated_utf8":
+    raw("caf\u00e9 \u65e5".encode()[:-1])     # ends inside a multi-byte character, no newline, then whatever follows
 if kind == "never_reads":
     while True:
         time.sleep(3600)
@@ -344,7 +355,7 @@ def host_logging(case):
 
 
 CHILD_KEYS = ("k", "code", "junk", "delay", "linger", "close_after", "term_delay", "stderr", "chatty", "falsy_result",
-              "on_term", "self_exit", "stderr_flood", "batch", "die_on_initialize", "mute_on_initialize")
+              "on_term", "self_exit", "stderr_flood", "batch", "die_on_initialize", "mute_on_initialize", "preamble")
 
 
 async def _scenario(case, tmp, obs):
@@ -428,9 +439,30 @@ async def _scenario(case, tmp, obs):
                 if case.get("version"):
                     c.set_protocol_version(case["version"])    # the version the handshake settled on (batching or not)
                 if case.get("legacy") and moment == "inflight":
-                    # the per-request stream API: a registered request is still waiting when the context is left
-                    shared["legacy_rx"] = c.new_request_stream("held-legacy")
-                    await c.send_json(JSONRPCMessage(jsonrpc="2.0", id="held-legacy", method="hold", params={}))
+                    # the per-request stream API: `legacy_n` registered requests are still waiting when the context is
+                    # left; their receive ends are left unread, are being read by a task, or have been closed
+                    shared["legacy_rx"] = []
+                    for i in range(case.get("legacy_n", 1)):
+                        rid = f"held-legacy-{i}"
+                        rx_ = c.new_request_stream(rid)
+                        shared["legacy_rx"].append(rx_)
+                        await c.send_json(JSONRPCMessage(jsonrpc="2.0", id=rid, method="hold", params={}))
+                    ends = case.get("legacy_ends", "unread")
+                    if ends == "closed":
+                        for rx_ in shared["legacy_rx"]:
+                            await rx_.aclose()
+                    if ends == "read":
+                        async with anyio.create_task_group() as ltg:
+                            async def reader_(rx_):
+                                with contextlib.suppress(Exception):
+                                    await rx_.receive()
+                            for rx_ in shared["legacy_rx"]:
+                                ltg.start_soon(reader_, rx_)
+                            try:
+                                yield c.get_streams()
+                            finally:
+                                ltg.cancel_scope.cancel()
+                        return
                 yield c.get_streams()
 
     @contextlib.asynccontextmanager
